@@ -517,6 +517,7 @@ func (env *SpecEnv) evalSelector(x *ast.SelectorExpr) TV {
 		ft := st.Field(idx).Type()
 		if isPtr {
 			p := cur.v.(PtrV)
+			env.vc.noteImmRef(cur.t.Underlying().(*types.Pointer).Elem(), fieldOffset(st, idx), p.ref)
 			cur = TV{env.vc.load(env.st, PtrV{p.ref, add(p.idx, fieldOffset(st, idx))}, ft), ft}
 		} else {
 			cur = TV{cur.v.(StructV).f[idx], ft}
